@@ -17,8 +17,8 @@ from .. import apps, common, explore, oracle, refhttp, seq
 from ..evidence import Run
 from . import c04
 
-KINDS = ["plain", "post", "expect-body", "expect-nobody", "expect-refused", "expect-10", "expect-caps"]
-WITH_BODY = ("expect-body", "expect-caps")  # the expectation token is case-insensitive (RFC 9110 10.1.1)
+KINDS = ["plain", "post", "expect-body", "expect-nobody", "expect-refused", "expect-10", "expect-caps", "expect-chunked"]
+WITH_BODY = ("expect-body", "expect-caps", "expect-chunked")  # the expectation token is case-insensitive (RFC 9110 10.1.1)
 _env = {}
 
 
@@ -42,6 +42,8 @@ def message(kind, i):
         return (f"POST /m{i} HTTP/1.1\r\nHost: h\r\n{idh}Expect: 100-continue\r\nContent-Length: 5\r\n\r\n").encode(), b"hello"
     if kind == "expect-caps":
         return (f"POST /m{i} HTTP/1.1\r\nHost: h\r\n{idh}Expect: 100-Continue\r\nContent-Length: 5\r\n\r\n").encode(), b"hello"
+    if kind == "expect-chunked":
+        return (f"POST /m{i} HTTP/1.1\r\nHost: h\r\n{idh}Expect: 100-continue\r\nTransfer-Encoding: chunked\r\n\r\n").encode(), b"5\r\nhello\r\n0\r\n\r\n"
     if kind == "expect-nobody":
         return (f"POST /m{i} HTTP/1.1\r\nHost: h\r\n{idh}Expect: 100-continue\r\nX-Own: {i}\r\n\r\n").encode(), b""
     if kind == "expect-refused":
@@ -125,6 +127,8 @@ def judge_pipeline(kinds, wire, closed, calls, mode, escaped):
         if "HTTP_X_OWN" in h and h["HTTP_X_OWN"] != str(i):
             v.append(("foreign-header", f"kinds={kinds} mode={mode}: request {i} saw X-Own {h['HTTP_X_OWN']!r}"))
         _, body = message(kinds[i], i) if 0 <= i < len(kinds) else (b"", b"")
+        if 0 <= i < len(kinds) and kinds[i] == "expect-chunked":
+            body = b"hello"  # the application sees the decoded body
         if c[4] != body:
             v.append(("body", f"kinds={kinds} mode={mode}: request {i} body {c[4]!r}, expected {body!r}"))
     return v
@@ -285,7 +289,7 @@ def main(tier, only=None):
     run = Run("C19", tier)
     rnd = random.Random(common.SEED)
     run.cov["rule"] = (
-        "sequential: all pipelines of <= 3 requests over {plain, post, expect-body, expect-nobody, expect-refused, expect-10, expect-caps (100-Continue)} x {one read, waiting client, byte-wise}; all segmentations (cut graph) of pipelines of <= 2; "
+        "sequential: all pipelines of <= 3 requests over {plain, post, expect-body, expect-nobody, expect-refused, expect-10, expect-caps (100-Continue), expect-chunked} x {one read, waiting client, byte-wise}; all segmentations (cut graph) of pipelines of <= 2; "
         "schedules: " + c04.RULE
     )
     run.assume(*c04.ASSUME)
@@ -296,7 +300,7 @@ def main(tier, only=None):
     batches = [items[i : i + 60] for i in range(0, len(items), 60)]
     graphs = [list(t) for n in (1, 2) for t in itertools.product(KINDS, repeat=n)]
     if tier == "quick":
-        graphs = [g for g in graphs if len(g) == 1 or (("expect-body" in g or "expect-nobody" in g) and "expect-caps" not in g)]
+        graphs = [g for g in graphs if len(g) == 1 or (("expect-body" in g or "expect-nobody" in g) and "expect-caps" not in g and "expect-chunked" not in g)]
     ctx = mp.get_context("fork")
     viol = []
     n = 0
